@@ -1,6 +1,5 @@
 import ParryModel.Field
 import ParryModel.C15.Model
-import ParryModel.C15.Theorems
 /-!
 # C15, convex `convex_polygons_intersection_with_tolerances`: the O'Rourke advance loop, the containment fall-backs,
 and the accumulator of `polygons_intersection_points`
@@ -11,8 +10,7 @@ and the accumulator of `polygons_intersection_points`
 * `cvx_items_wellformed` — every pair handed to `out` by the loop is an intersection of an **existing edge** of `poly1`
   with an existing edge of `poly2` reported by `segments_intersection2d` (a `Point`, or one of the two ends of a
   `Segment`), or an existing vertex of `poly1` / `poly2`.
-* `cvx_items_on_both_boundaries` (field) — such an intersection item denotes the same point through both locations and
-  the point lies on both closed edges.
+* (`Theorems.lean`: `cvx_items_on_both_boundaries_partial`, `onSeg_in_convex`, `convex_fallback_sound` — the geometric readings.)
 * `containScan_iff`, `convex_fallback_sound` — the O(n²) containment test is `true` exactly when no two
   (edge, point) orientations are opposite; then every vertex of the emitted polygon is on the closed inner side
   (dead-band `eps`) of every edge of the other polygon.
@@ -468,141 +466,4 @@ theorem splitComponents_runs (poly1 poly2 : Array (V2 K)) (runs : List (List (Em
   simp
 
 end split
-
-/-! ## geometry of the emitted items (exact arithmetic) -/
-section geo
-variable {K : Type} [Field K] [LinearOrder K] [IsStrictOrderedRing K] (sq : K → K)
-
-private theorem toPoint_ofSegLoc' (poly : Array (V2 K)) (i j : Nat) (l : SegLoc K) :
-    letI := fieldNum K sq
-    PolyLoc.toPoint poly (PolyLoc.ofSegLoc i j l) = locPt (ppt poly i) (ppt poly j) l := by
-  cases l with
-  | onVertex k => by_cases hk : k = 0 <;> simp [PolyLoc.ofSegLoc, PolyLoc.toPoint, locPt, hk]
-  | onEdge u v => simp [PolyLoc.ofSegLoc, PolyLoc.toPoint, locPt, V2.smul, V2.add]
-
-/-- the two edges really cross (`|cross| ≥ eps`, `> 2⁻⁵²`: the non-parallel branch) or are exactly collinear and
-non-degenerate (the tolerance-free domain of the `Segment` answers) -/
-def ExactPair (a b c d : V2 K) (eps : K) : Prop :=
-  (eps ≤ |crossDir a b c d| ∧ (1 / 2 ^ 52 : K) < |crossDir a b c d|) ∨
-  (crossDir a b c d = 0 ∧ area2 a b c = 0 ∧ a ≠ b ∧ c ≠ d)
-
-/-- **soundness of the intersection items of `convex_polygons_intersection_with_tolerances`** (exact arithmetic, every
-input — no convexity or orientation hypothesis —, every `eps ≥ 0`).  Every pair handed to `out` is a vertex item
-(`OnVertex(b)` of an existing vertex of `poly1` resp. `poly2`) or a pair `(Some(loc1), Some(loc2))` attached to an existing
-edge `(a1, b1)` of `poly1` and an existing edge `(a2, b2)` of `poly2` such that — whenever the two edges properly cross or
-are exactly collinear (`ExactPair`; always the case for a `Point` answer) — **both locations denote the same point and
-this point lies on both closed edges**, hence on both boundaries and in both closed polygons.
-Not covered (stated gap): a `Segment` answer for nearly-but-not-exactly parallel edges (`0 < |cross| < eps`), where the
-end points are only within the tolerance; and the claim that the *vertex* items lie inside the other polygon (the
-correctness of the `inflag` bookkeeping of O'Rourke's algorithm, judged by the exact oracle on every generated case). -/
-theorem cvx_items_on_both_boundaries_partial (poly1 poly2 : Array (V2 K)) (eps : K) (he : 0 ≤ eps) :
-    letI := fieldNum K sq
-    ∀ it ∈ convexPolygonsIntersection poly1 poly2 eps,
-      (∃ b, b < poly1.size ∧ it = (some (.onVertex b), none)) ∨
-      (∃ b, b < poly2.size ∧ it = (none, some (.onVertex b))) ∨
-      ∃ a1 b1 a2 b2 l1 l2, IsPolyEdge poly1.size a1 b1 ∧ IsPolyEdge poly2.size a2 b2 ∧ it = (some l1, some l2) ∧
-        (ExactPair (ppt poly1 a1) (ppt poly1 b1) (ppt poly2 a2) (ppt poly2 b2) eps →
-          l1.toPoint poly1 = l2.toPoint poly2 ∧
-          OnSeg (ppt poly1 a1) (ppt poly1 b1) (l1.toPoint poly1) ∧
-          OnSeg (ppt poly2 a2) (ppt poly2 b2) (l1.toPoint poly1)) := by
-  intro it hit
-  rcases @cvx_items_wellformed K (fieldNum K sq) poly1 poly2 eps it hit with
-    ⟨a1, b1, a2, b2, l1, l2, he1, he2, rfl, hcase⟩ | h | h
-  · refine Or.inr (Or.inr ⟨a1, b1, a2, b2, _, _, he1, he2, rfl, ?_⟩)
-    intro hex
-    rw [toPoint_ofSegLoc', toPoint_ofSegLoc']
-    rcases hcase with hseg | ⟨s1, s2, hseg⟩ | ⟨f1, f2, hseg⟩
-    · obtain ⟨hc1, hc2⟩ := segments_point_nonparallel sq _ _ _ _ _ l1 l2 hseg
-      have hs := segments_nonparallel sq _ _ _ _ _ hc1 hc2
-      rw [hseg] at hs
-      obtain ⟨e1, e2, e3, _⟩ := hs
-      exact ⟨e1, e2, by rw [e1]; exact e3⟩
-    · rcases hex with ⟨hc1, hc2⟩ | ⟨hpar, hcol, hab, hcd⟩
-      · have hs := segments_nonparallel sq _ _ _ _ _ hc1 hc2
-        rw [hseg] at hs; exact absurd hs id
-      · have hs := (segments_parallel sq _ _ _ _ eps he hab hcd hpar).2 hcol
-        rw [hseg] at hs
-        obtain ⟨e1, _, e3, e4, _⟩ := hs
-        exact ⟨e1, e3, e4⟩
-    · rcases hex with ⟨hc1, hc2⟩ | ⟨hpar, hcol, hab, hcd⟩
-      · have hs := segments_nonparallel sq _ _ _ _ _ hc1 hc2
-        rw [hseg] at hs; exact absurd hs id
-      · have hs := (segments_parallel sq _ _ _ _ eps he hab hcd hpar).2 hcol
-        rw [hseg] at hs
-        obtain ⟨_, e2, _, _, e5, e6, _⟩ := hs
-        exact ⟨e2, e5, e6⟩
-  · exact Or.inl h
-  · exact Or.inr (Or.inl h)
-
-/-- the polygon is convex: every vertex is on the closed left of every directed edge (counter-clockwise) or every vertex
-is on the closed right of every directed edge (clockwise) -/
-def ConvexPoly (poly : List (V2 K)) : Prop :=
-  (∀ e ∈ polyEdges poly, ∀ v ∈ poly, 0 ≤ area2 e.1 e.2 v) ∨ (∀ e ∈ polyEdges poly, ∀ v ∈ poly, area2 e.1 e.2 v ≤ 0)
-
-private theorem area2_onSeg (u v a b p : V2 K) (h : OnSeg a b p) :
-    ∃ t : K, 0 ≤ t ∧ t ≤ 1 ∧ area2 u v p = (1 - t) * area2 u v a + t * area2 u v b := by
-  obtain ⟨t, h0, h1, hx, hy⟩ := h
-  refine ⟨t, h0, h1, ?_⟩
-  unfold area2; rw [hx, hy]; ring
-
-/-- **a point of a closed edge of a convex polygon is in the polygon** (as decided by `point_in_convex_poly2d`): with
-`cvx_items_on_both_boundaries_partial` this gives, for convex inputs of either orientation, that every intersection item
-of `convex_polygons_intersection` is a point of **both** polygons. -/
-theorem onSeg_in_convex (poly : List (V2 K)) (hc : ConvexPoly poly) (a b p : V2 K) (ha : a ∈ poly) (hb : b ∈ poly)
-    (hp : OnSeg a b p) :
-    letI := fieldNum K sq
-    pointInConvexPoly2d p poly = true := by
-  rw [point_in_convex_poly2d_iff]
-  refine ⟨List.ne_nil_of_mem ha, ?_⟩
-  rcases hc with hc | hc
-  · left; intro e he
-    obtain ⟨t, h0, h1, ht⟩ := area2_onSeg e.1 e.2 a b p hp
-    rw [ht]
-    have := hc e he a ha; have := hc e he b hb
-    have : 0 ≤ 1 - t := by linarith
-    positivity
-  · right; intro e he
-    obtain ⟨t, h0, h1, ht⟩ := area2_onSeg e.1 e.2 a b p hp
-    rw [ht]
-    have h2 := hc e he a ha; have h3 := hc e he b hb
-    have h4 : 0 ≤ 1 - t := by linarith
-    nlinarith [mul_nonneg h4 (neg_nonneg.mpr h2), mul_nonneg h0 (neg_nonneg.mpr h3)]
-
-/-- non-vacuity: the unit square is convex, (1/2, 0) is on its first edge -/
-example : ConvexPoly ([⟨0,0⟩, ⟨1,0⟩, ⟨1,1⟩, ⟨0,1⟩] : List (V2 ℚ)) ∧
-    OnSeg (⟨0,0⟩ : V2 ℚ) ⟨1,0⟩ ⟨1/2, 0⟩ := by
-  refine ⟨Or.inl ?_, ⟨1/2, by norm_num, by norm_num, by norm_num, by norm_num⟩⟩
-  intro e he v hv
-  simp only [polyEdges, List.zip, List.zipWith, List.cons_append, List.nil_append, List.mem_cons, List.not_mem_nil,
-    or_false] at he hv
-  rcases he with rfl | rfl | rfl | rfl <;> rcases hv with rfl | rfl | rfl | rfl <;> norm_num [area2]
-
-/-- **soundness of the containment fall-back** (exact arithmetic, `eps ≥ 0`): when the scan of the edges of `polyA`
-against the points of `polyB` succeeds (`ok`), all points of `polyB` are on the closed left side of **every** edge line of
-`polyA` up to the dead-band (`area2 ≥ -eps`), or all are on the closed right side of every edge line (`area2 ≤ eps`) —
-so for a convex `polyA` and `eps = 0` every emitted vertex of `polyB` is a point of `polyA` in the sense of
-`point_in_convex_poly2d_iff`.  (The vertices emitted by the fall-back are exactly those of `polyB`, each once, in input
-order or reversed: `cvx_items_wellformed` + the model.) -/
-theorem convex_fallback_sound (polyA polyB : Array (V2 K)) (eps : K) (he : 0 ≤ eps) :
-    letI := fieldNum K sq
-    containScan polyA polyB eps = true →
-      (∀ a < polyA.size, ∀ p ∈ polyB.toList,
-          -eps ≤ area2 (ppt polyA ((a + polyA.size - 1) % polyA.size)) (ppt polyA a) p) ∨
-      (∀ a < polyA.size, ∀ p ∈ polyB.toList,
-          area2 (ppt polyA ((a + polyA.size - 1) % polyA.size)) (ppt polyA a) p ≤ eps) := by
-  intro h
-  have h' := (@containScan_iff K (fieldNum K sq) polyA polyB eps).mp h
-  by_contra hcon
-  push Not at hcon
-  obtain ⟨⟨a, ha, p, hp, h1⟩, ⟨a', ha', p', hp', h2⟩⟩ := hcon
-  apply h'
-  constructor
-  · refine ⟨a', ha', p', hp', ?_⟩
-    unfold scanOrient
-    rw [(orientation2d_spec sq _ _ _ eps he).1]; exact h2
-  · refine ⟨a, ha, p, hp, ?_⟩
-    unfold scanOrient
-    rw [(orientation2d_spec sq _ _ _ eps he).2.1]; exact h1
-
-end geo
 end C15
